@@ -25,3 +25,62 @@ async fn verif_c29_origin_plus_amount_overflow() {
         Err(e) => println!("NO-WITNESS D8: join error {e}"),
     }
 }
+
+// ---------------------------------------------------------------------------------------------
+// Witness finder / bounded stand-in for C29: stored sets with gaps (heights 1..=12, removed heights via remove_height)
+// x every height request (origin 0..=14, amount 0..=6 and huge), head, hash and invalid requests.
+// ---------------------------------------------------------------------------------------------
+async fn serve_one(store: &InMemoryStore, request: HeaderRequest) -> std::result::Result<Vec<HeaderResponse>, String> {
+    let (mut handler, mut sender) = mocked_server_handler(store.async_clone().await);
+    let (tx, rx) = oneshot::channel();
+    handler.on_request_received(PeerId::random(), "test", request, &mut sender, tx);
+    let res = tokio::task::spawn(async move { poll_handler_for_result(&mut handler, &mut sender, rx).await }).await;
+    res.map_err(|e| if e.is_panic() { "panic".to_string() } else { e.to_string() })
+}
+
+#[async_test]
+async fn verif_enum_header_ex_server() {
+    let mut cases = 0u64;
+    for removed_mask in [0u32, 0b0000_0001_0000, 0b0011_0000_0100, 0b1000_0000_0001, 0b0000_0110_0000] {
+        let (store, _) = gen_filled_store(12).await;
+        for h in 1..=12u64 { if removed_mask & (1 << (h - 1)) != 0 { store.remove_height(h).await.unwrap(); } }
+        let stored: Vec<u64> = (1..=12u64).filter(|h| removed_mask & (1 << (h - 1)) == 0).collect();
+        let head = *stored.last().unwrap();
+        for origin in 1..=14u64 { for amount in [0u64, 1, 2, 3, 6, 20, 513, u64::MAX, u64::MAX - 3] {
+            cases += 1;
+            let request = HeaderRequest::with_origin(origin, amount);
+            let valid = request.is_valid();
+            let res = match serve_one(&store, request).await { Ok(r) => r, Err(e) => { println!("WITNESS C29: request origin {origin} amount {amount} on stored {stored:?}: server task failed: {e}"); panic!("witness"); } };
+            if !valid {
+                if res.len() != 1 || res[0].status_code != i32::from(StatusCode::Invalid) { println!("WITNESS C29: invalid request origin {origin} amount {amount} answered by {} responses, first status {}", res.len(), res[0].status_code); panic!("witness"); }
+                continue;
+            }
+            // expected: the longest run of consecutive stored heights from origin, capped at min(amount, 512); or one not-found
+            let mut run = 0u64; while run < amount.min(512) && stored.contains(&(origin + run)) { run += 1; }
+            if run == 0 {
+                if res.len() != 1 || res[0].status_code != i32::from(StatusCode::NotFound) { println!("WITNESS C29: origin {origin} is not stored ({stored:?}) but the answer has {} responses, first status {}", res.len(), res[0].status_code); panic!("witness"); }
+            } else {
+                let heights: Vec<u64> = res.iter().map(|r| r.to_validated_extented_header().map(|h| h.height()).unwrap_or(0)).collect();
+                let want: Vec<u64> = (origin..origin + run).collect();
+                if heights != want { println!("WITNESS C29: request origin {origin} amount {amount} on stored {stored:?} answered with heights {heights:?}, expected {want:?}"); panic!("witness"); }
+            }
+        }}
+        // head
+        cases += 1;
+        let res = serve_one(&store, HeaderRequest::head_request()).await.unwrap_or_default();
+        if res.len() != 1 || res[0].to_validated_extented_header().map(|h| h.height()).ok() != Some(head) { println!("WITNESS C29: head request on stored {stored:?} not answered with header {head}"); panic!("witness"); }
+        // hash: stored and unknown
+        let some = store.get_by_height(stored[0]).await.unwrap();
+        cases += 2;
+        let res = serve_one(&store, HeaderRequest::with_hash(some.hash())).await.unwrap_or_default();
+        if res.len() != 1 || res[0].to_validated_extented_header().map(|h| h.hash()).ok() != Some(some.hash()) { println!("WITNESS C29: hash request for a stored header not answered with it"); panic!("witness"); }
+        let res = serve_one(&store, HeaderRequest::with_hash(celestia_types::hash::Hash::Sha256([7u8; 32]))).await.unwrap_or_default();
+        if res.len() != 1 || res[0].status_code != i32::from(StatusCode::NotFound) { println!("WITNESS C29: hash request for an unknown hash not answered with a single not-found"); panic!("witness"); }
+    }
+    // empty store: head is not-found
+    cases += 1;
+    let empty = InMemoryStore::new();
+    let res = serve_one(&empty, HeaderRequest::head_request()).await.unwrap_or_default();
+    if res.len() != 1 || res[0].status_code != i32::from(StatusCode::NotFound) { println!("WITNESS C29: head request on an empty store not answered with a single not-found"); panic!("witness"); }
+    println!("ENUM-OK cases={cases}");
+}
